@@ -41,10 +41,11 @@ type c08Case struct {
 	ParentMismatch bool     `json:"parent_mismatch"` // the parent of the first sublayout step REQUIREs a product the sublayout does not deliver
 	ParentForbids  bool     `json:"parent_forbids"`  // the parent DISALLOWs an artifact that only exists inside the sublayout (must still accept)
 	CertSub        bool     `json:"cert_sub"`        // legacy wrapper: one functionary of the first root-level sublayout step is authorised by certificate
+	LinkDirRel     bool     `json:"link_dir_rel,omitempty"` // the link directory is handed over relative to the working directory
 }
 
 var c08LeafDefects = []string{"missing-link", "forged-link", "tampered-link", "rule-violation", "threshold"}
-var c08SubDefects = []string{"sub-foreign-sig", "sub-bad-sig", "sub-missing-dir", "sub-expired", "sub-inspection-fails", "sub-dir-in-cwd", "sub-disagree"}
+var c08SubDefects = []string{"sub-foreign-sig", "sub-bad-sig", "sub-missing-dir", "sub-expired", "sub-inspection-fails", "sub-dir-in-cwd", "sub-disagree", "sub-two-spellings"}
 
 func c08GenLevel(t *rapid.T, depth int, path string, allowSub bool) c08Level {
 	n := rapid.IntRange(1, 2).Draw(t, "nsteps"+path)
@@ -112,6 +113,7 @@ func c08Gen(t *rapid.T) c08Case {
 	c.Root = c08GenLevel(t, depth, "", true)
 	c.Evil = rapid.IntRange(0, 2).Draw(t, "evil") == 0
 	c.CertSub = c.Wrapper == "legacy" && rapid.IntRange(0, 2).Draw(t, "certsub") == 0
+	c.LinkDirRel = rapid.IntRange(0, 2).Draw(t, "linkdirrel") == 0
 	switch rapid.IntRange(0, 9).Draw(t, "variant") {
 	case 0:
 		c.ParentMismatch = true
@@ -244,6 +246,7 @@ func (b *c08Builder) buildLevel(lv c08Level, dir string, isRoot bool) hx.MLayout
 			// a sublayout: every functionary delivers the same sublayout, signed by itself, and the
 			// links of the sublayout's steps in <step>.<keyid8>/
 			var afterSub, dissent map[string]string
+			twoSpellings := false
 			plainIdx := -1
 			if st.Plain && len(st.Functionaries) >= 2 {
 				// mixed evidence: the last listed functionary did the work himself and hands in a link
@@ -303,6 +306,23 @@ func (b *c08Builder) buildLevel(lv c08Level, dir string, isRoot bool) hx.MLayout
 				} else {
 					afterSub = copyFiles(b.tree)
 				}
+				if st.Defect == "sub-two-spellings" && plainIdx < 0 {
+					// every functionary's sublayout ends with links that record one more artifact under two
+					// spellings with different digests (allowed inside); the parent forbids that artifact
+					lastInner := inner.Steps[len(inner.Steps)-1]
+					if lastInner.Sub == nil {
+						for i := nLinksBefore; i < len(b.links); i++ {
+							if l := b.links[i].Meta.Link; l != nil && l.Name == lastInner.Name && strings.HasPrefix(b.links[i].Name, subDir) && strings.Count(b.links[i].Name[len(subDir):], "/") == 0 {
+								nl := *l
+								nl.Products = copyArtifacts(nl.Products)
+								nl.Products["extra.sh"] = map[string]string{"sha256": "e1"}
+								nl.Products["./extra.sh"] = map[string]string{"sha256": "e2"}
+								b.links[i].Meta = hx.MMeta{Link: &nl}
+								twoSpellings = true
+							}
+						}
+					}
+				}
 				file := hx.WMetaFile{Name: dir + hx.LinkFileName(st.Name, kid), Wrapper: b.c.Wrapper, Meta: hx.MMeta{Layout: &subLay}, Sigs: []hx.WSig{{Key: f, WithCert: strings.HasPrefix(f, "pki:")}}}
 				if defectHere {
 					switch st.Defect {
@@ -344,6 +364,10 @@ func (b *c08Builder) buildLevel(lv c08Level, dir string, isRoot bool) hx.MLayout
 				}
 				link := hx.MLink{Type: "link", Name: st.Name, Materials: hx.ArtifactsOf(before), Products: prods, ByProducts: hx.MObj{}, Command: []string{}, Environment: hx.MObj{}}
 				b.links = append(b.links, hx.WMetaFile{Name: dir + hx.LinkFileName(st.Name, b.funcKeyID(f)), Wrapper: b.c.Wrapper, Meta: hx.MMeta{Link: &link}, Sigs: []hx.WSig{{Key: f}}})
+			}
+			if twoSpellings {
+				ms.ExpProd = append([][]string{{"DISALLOW", "extra.sh"}}, ms.ExpProd...)
+				b.defects = append(b.defects, "sub-two-spellings@"+st.Name)
 			}
 			if dissent != nil && !sameFiles(dissent, afterSub) {
 				// (when the differing file never leaves the sublayout the summaries agree: no defect)
@@ -431,9 +455,12 @@ func c08Run(c c08Case, r *hx.Rec) error {
 		b.certs = certs
 	}
 	rootLay := b.buildLevel(c.Root, "", true)
-	w := hx.World{Entry: c.Entry, Links: b.links,
+	w := hx.World{Entry: c.Entry, Links: b.links, LinkDirRel: c.LinkDirRel,
 		Layout:       hx.WMetaFile{Name: "root.layout", Wrapper: c.Wrapper, Meta: hx.MMeta{Layout: &rootLay}, Sigs: []hx.WSig{{Key: "ed25519-2"}}},
 		VerifierKeys: []hx.WKey{{Key: "ed25519-2"}}}
+	if c.LinkDirRel {
+		r.Label("relative-link-directory")
+	}
 	if b.usedPKI {
 		w.PKI = c02PKI()
 		r.Label("cert-functionary-sublayout")
